@@ -734,7 +734,8 @@ class Gen:
             used_as_base = set(e["_base"] for e in c["extends"])
             cls_av = [d for d in self.done if d != me]
             if cls_av and rng.random() < 0.42:
-                ty = rng.choice(cls_av)
+                own_local = [d for d in cls_av if d[:-1] == me]
+                ty = rng.choice(own_local) if own_local and rng.random() < 0.5 else rng.choice(cls_av)
                 r = self.ref_to(me, ty)
                 if r is None:
                     continue
@@ -991,6 +992,9 @@ def triggers(lib, target):
     pymoca instantiates every local class of every class it instantiates, used or not; the labels are
     therefore collected over the target and all those classes."""
     out = set()
+    sub = set()
+    global LAST_SUB
+    LAST_SUB = sub
     orc = Oracle(lib)
     try:
         orc.flat(target)
@@ -1038,6 +1042,38 @@ def triggers(lib, target):
                 return full if full in cls else None
         return None
 
+    def inside(d, e):
+        return len(d) > len(e) and d[:len(e)] == e
+
+    def inh_path(c, decl):
+        """classes from c down to the direct deriver of decl along extends clauses (None: not a base)"""
+        for b, _ in orc.ext_list(c):
+            if b == decl:
+                return [c]
+            r = inh_path(b, decl)
+            if r is not None:
+                return [c] + r
+        return None
+
+    def marked(decl, inst_class):
+        """was the local class `decl` instantiated in place before being copied as a base class here?
+        (its deriver lives inside the class that declares `decl`, whose copy holds the marks)"""
+        if decl == inst_class or not is_local(decl):
+            return False
+        return any(inside(d, decl[:-1]) for d in (inh_path(inst_class, decl) or []))
+
+    all_long = [cp_ for cp_, c_ in cls.items() if c_["kind"] != "package" and orc.base_of_alias(cp_) is None]
+    rebased = set()           # local classes used as a base class from inside their declaring class
+    for d_ in all_long:
+        for b_, _ in orc.ext_list(d_):
+            if is_local(b_) and inside(d_, b_[:-1]):
+                rebased.add(b_)
+
+    def pairs(c):
+        for b, _ in orc.ext_list(c):
+            yield (c, b)
+            yield from pairs(b)
+
     def walk_spelling(smods, ctx):
         # ctx: class path, or ("leaf",)
         for m in smods:
@@ -1057,7 +1093,8 @@ def triggers(lib, target):
                     out.add("REJ")
                 walk_spelling(m["subs"], c)
 
-    queue = [(tuple(target.split(".")), None)]
+    troot = tuple(target.split("."))
+    queue = [(troot, None)]
     seen = set()
     while queue:
         root, chain = queue.pop()
@@ -1086,13 +1123,14 @@ def triggers(lib, target):
                     walk_spelling(cdef["alias"]["mods"], orc.ix.resolve(cp[:-1], cdef["alias"]["base"]))
                 for e in cdef["extends"]:
                     walk_spelling(e["mods"], orc.ix.resolve(cp, e["ref"]))
-                    if is_local(cp) and any(len(m["name"]) > 1 for m in e["mods"]):
-                        out.add("RE")      # the dotted name is shortened in place at the first instantiation
+                    if any(len(m["name"]) > 1 for m in e["mods"]) and any(cp[:j] in rebased for j in range(1, len(cp) + 1)):
+                        out.add("RE"); sub.add("RE2")      # the dotted name is shortened in place at the first instantiation
                 for k in cdef["comps"]:
                     ty = orc.comp_type(k, cp)
                     walk_spelling(k["mods"], ("leaf",) if ty[0] == "leaf" else ty[1])
-                    if cp != cpath and is_local(cp) and k["type"] not in BUILTIN and (k["mods"] or k["value"] is not None):
-                        out.add("RE")      # scopes noted at the first instantiation of the local base class
+                    if k["type"] not in BUILTIN and (k["mods"] or k["value"] is not None) and any(
+                            b == cp and is_local(b) and inside(d, b[:-1]) for d, b in pairs(cpath)):
+                        out.add("RE"); sub.add("RE3")      # scopes noted at the first instantiation of the local base class
                 for n in cdef["classes"]:
                     if n["kind"] != "package" and n["alias"] is None:
                         nr = cp + (n["name"],)
@@ -1114,12 +1152,17 @@ def triggers(lib, target):
             if nalias >= 1 and (kind == "ext" or tuple(w) != leaf_level):
                 lv = orc.levels(root, path)
                 k, decl, _ = lv[-1][2]
-                chain_classes = [orc.ix.resolve(decl, k["type"]), decl]
-                for (_, _, (kk, dd, _)) in lv[:-1]:
-                    chain_classes.append(orc.ix.resolve(dd, kk["type"]))
-                    chain_classes.append(dd)
-                if any(is_local(c) for c in chain_classes if not isinstance(c, str)):
-                    out.add("RE")
+                hit = False
+                for (_, cl, (kk, dd, _)) in lv:
+                    x = orc.ix.resolve(dd, kk["type"])
+                    # is the type found as an already instantiated local class, or the symbol already marked?
+                    if marked(dd, cl) or (not isinstance(x, str) and is_local(x) and (
+                            any(x[:j] in set(all_classes(cl)) for j in range(1, len(x))) or
+                            (root != troot and any(inside(root, x[:j]) and cls[x[:j]]["kind"] != "package"
+                                                   for j in range(1, len(x)))))):
+                        hit = True
+                if hit:
+                    out.add("RE"); sub.add("RE1")
             lost = attr is not None and tuple(w) != leaf_level
             applied = leaf_level if lost else tuple(w)
             if pymoca_renaming(expr, applied, names) != rename(expr, w, names):
